@@ -1,6 +1,6 @@
 (* Props/C13.v — matching is perfect and of minimum total weight. *)
 From Coq Require Import Arith List Bool Lia QArith Permutation.
-From QV Require Import Decoders.Matching Decoders.MatchingHist.
+From QV Require Import Decoders.Matching Decoders.MatchingHist Decoders.MatchingMin Decoders.MatchingMemo.
 Import ListNotations.
 Open Scope nat_scope.
 
@@ -101,6 +101,31 @@ Proof. exact edge_get. Qed.
 Theorem c13_hist_adds : forall ops, run (map (fun o : op => HAdd (fst (fst o)) (snd (fst o)) (snd o)) ops) = build ops.
 Proof. exact run_adds. Qed.
 
+(* P-forall: the checkers used for DENSE graphs (complete graphs on 12-20 nodes: all_pms has 10^4 - 10^9 elements and is never
+   built).  is_min_pm_fast follows the recursion of all_pms keeping only the running minimum (Decoders/MatchingMin.v);
+   is_min_pm_memo memoises that recursion on the list of uncovered nodes — correct for any hash function
+   (Decoders/MatchingMemo.v); is_min_pm_big first multiplies all weights by a positive common multiple of their denominators.
+   All three are the SAME boolean function as is_min_pm: integer, rational, zero, negative weights alike *)
+Theorem c13_checker_fast : forall g m, is_min_pm_fast g m = is_min_pm g m.
+Proof. exact is_min_pm_fast_eq. Qed.
+Theorem c13_checker_memo : forall g m, is_min_pm_memo g m = is_min_pm g m.
+Proof. exact is_min_pm_memo_eq. Qed.
+Theorem c13_checker_big : forall g m, is_min_pm_big g m = true <->
+  perfect g m /\ forall m', perfect g m' -> (weight g m <= weight g m')%Q.
+Proof. exact is_min_pm_big_spec. Qed.
+Theorem c13_checker_big_eq : forall g m, is_min_pm_big g m = is_min_pm g m.
+Proof. exact is_min_pm_big_eq. Qed.
+(* the number of perfect matchings and the least weight reported beside the verdict *)
+Theorem c13_npms_memo : forall g, npms_memo g = N.of_nat (length (all_pms g)).
+Proof. exact npms_memo_spec. Qed.
+Theorem c13_npms_scaled : forall c g, all_pms (scaleq c g) = all_pms g.
+Proof. exact all_pms_scaleq. Qed.
+Theorem c13_min_weight_memo : forall g w, min_pm_weight_memo g = Some w ->
+  (exists m, perfect g m /\ weight g m = w) /\ forall m', perfect g m' -> (w <= weight g m')%Q.
+Proof. exact min_pm_weight_memo_spec. Qed.
+Theorem c13_weight_scaled : forall c g m, (weight (scaleq c g) m == weight g m * c)%Q.
+Proof. exact weight_scaleq. Qed.
+
 (* non-vacuity: a 4-cycle with a chord, inserted with a reversed re-insertion; negative and rational weights *)
 Example c13_ex :
   let g := build [(0, 1, 3#1); (1, 2, (-1)#2); (2, 3, 3#1); (3, 0, 1#4); (2, 1, 5#1); (0, 2, 0#1)] in
@@ -118,3 +143,6 @@ Print Assumptions c13_hist_checker. Print Assumptions c13_hist_keys_distinct. Pr
 Print Assumptions c13_hist_set. Print Assumptions c13_hist_pop. Print Assumptions c13_hist_add_edge.
 Print Assumptions c13_hist_update. Print Assumptions c13_hist_setdefault. Print Assumptions c13_hist_popitem.
 Print Assumptions c13_hist_edge_get. Print Assumptions c13_hist_adds.
+Print Assumptions c13_checker_fast. Print Assumptions c13_checker_memo. Print Assumptions c13_checker_big.
+Print Assumptions c13_checker_big_eq. Print Assumptions c13_npms_memo. Print Assumptions c13_npms_scaled.
+Print Assumptions c13_min_weight_memo. Print Assumptions c13_weight_scaled.
